@@ -539,6 +539,9 @@ class MarkdownNormalizer(Renderer):
     def render_thematic_break(self, _element: block.ThematicBreak) -> str:
         result = f"{self._prefix}* * *\n"
         self._prefix = self._second_prefix
+        # Like a paragraph or a code block: the next list item still needs its separator.
+        self._skip_next_blank_line = False
+        self._suppress_item_break = False
         return result
 
     def render_heading(self, element: block.Heading) -> str:
@@ -743,8 +746,10 @@ class MarkdownNormalizer(Renderer):
         the delimiters to use three dashes consistently.
         """
         # Reset the skip flag since we're not rendering a blank line (a table directly after
-        # a heading would otherwise swallow the blank line that ends the table).
+        # a heading would otherwise swallow the blank line that ends the table), and like a
+        # paragraph or a code block leave the separator of the next list item in place.
         self._skip_next_blank_line = False
+        self._suppress_item_break = False
 
         lines: list[str] = []
         head, *body = element.children
